@@ -119,6 +119,12 @@ pub mod internal_comparison {
     pub use crate::internals::compare::position_array::BlockHashPositionArrayImplUnchecked;
 }
 
+/// Verification hooks (only with `--cfg a4lg_ffuzzy_verif`; off by default).
+#[cfg(all(a4lg_ffuzzy_verif, feature = "std"))]
+pub mod verif_hooks {
+    pub use crate::internals::verif_hooks::{set_opener, File, Metadata, Opener, SimFile};
+}
+
 /// Module containing certain constraints about fuzzy hash data.
 pub mod constraints {
     pub use crate::internals::hash::block::{
